@@ -89,7 +89,7 @@ static double gen_real() { // full-precision reals spanning 1e-12 .. 0.5, plus t
 
 static J gen_obj(int forced_type = -1) {
     J d = J::object();
-    int type = forced_type >= 0 ? forced_type : *rc::gen::weightedElement<int>({{3, 0}, {3, 1}, {2, 2}, {3, 3}, {2, 4}, {2, 5}, {3, 6}, {2, 7}, {2, 8}, {2, 9}, {2, 10}, {3, 11}, {1, 12}, {1, 13}});
+    int type = forced_type >= 0 ? forced_type : *rc::gen::weightedElement<int>({{3, 0}, {3, 1}, {2, 2}, {3, 3}, {2, 4}, {2, 5}, {3, 6}, {2, 7}, {2, 8}, {2, 9}, {2, 10}, {3, 11}, {1, 12}, {1, 13}, {2, 14}});
     d.set("type", type).set("name", IONAME[type]);
     bool keyset = type == T_CLOUD || type == T_SECRET;
     d.set("n", keyset ? *rng<int>(1, 3) : (type == T_KSKEY ? *rng<int>(1, 8) : type == T_BKKEY ? *rng<int>(1, 3) : *rc::gen::weightedOneOf<int>({{5, rng<int>(1, 40)}, {1, rng<int>(41, 700)}})));
@@ -137,7 +137,7 @@ int main(int argc, char **argv) {
         int len = *rc::gen::weightedElement<int>({{3, 1}, {3, 2}, {2, 3}, {1, 4}, {1, 5}, {1, 6}});
         J objs = J::array();
         int keysets = 0;
-        for (int i = 0; i < len; i++) { J d = gen_obj(); if (d["type"].i() >= T_CLOUD && ++keysets > 1) d = gen_obj(*rng<int>(0, 11)); objs.push(d); }
+        for (int i = 0; i < len; i++) { J d = gen_obj(); if ((d["type"].i() == T_CLOUD || d["type"].i() == T_SECRET) && ++keysets > 1) d = gen_obj(*rng<int>(0, 11)); objs.push(d); }
         c.set("objs", objs).set("wfile", *rng<int>(0, 1)).set("rfile", *rng<int>(0, 1)).set("fseed", *genSeed());
         return c;
     });
